@@ -143,6 +143,8 @@ def cases(tier):
 def explore(tier, seed):
     chunks = [("v2", tier, i) for i in range(len(cases(tier)))] + [("legacy", tier, i) for i in range(len(c04.legacy_cases()))]
     chunks.append(("fetch", tier, 0))
+    for scope in ("default", "global", "branch"):
+        chunks.append(("tags", tier, scope))
     return pool.run_chunks(run_chunk, chunks)
 
 
@@ -181,6 +183,10 @@ def run_chunk(chunk):
     os.chdir(d)
     if kind == "fetch":
         fetch_cases(st)
+        os.chdir("/")
+        return st
+    if kind == "tags":
+        tag_cases(st, idx)
         os.chdir("/")
         return st
     if kind == "v2":
@@ -243,6 +249,37 @@ def fetch_cases(st):
                                                            tags_after_fetch=remote_tags))
 
                 dry_then_real(st, tree, seps, flags, case, f"fetch:{scope}", base_flags=(), vcs=vcs)
+
+
+STRAY_TAGS = ["1.3.0", "v1.3", "v1.2.10", "release-1", "v1.3.0rc1", "v1.3.0"]
+
+
+def tag_cases(st, scope):
+    """Existing tags around the version about to be created - twins that do not match the pattern but denote the same version (`1.3.0`,
+    `v1.3` for `v1.3.0`), a pattern-valid newer tag, a junk tag, a pre-release of it, the new version itself - in every subset, with
+    committing/tagging on and off: whatever `update` decides about them, `--dry` must decide the same."""
+    import itertools
+
+    from .. import fakevcs
+
+    for r in range(len(STRAY_TAGS) + 1):
+        for extra in itertools.combinations(STRAY_TAGS, r):
+            for commit in (False, True):
+                for bump in ("--minor", "--patch"):
+                    tags = ["v1.2.9"] + list(extra)
+                    merged = ["v1.2.9"] + [t for i, t in enumerate(extra) if i % 2 == 0]  # every other stray tag is on this branch
+                    cfg = ('[bumpver]\ncurrent_version = "v1.2.9"\nversion_pattern = "vMAJOR.MINOR.PATCH"\n'
+                           f'tag_scope = "{scope}"\ncommit = {"true" if commit else "false"}\ntag = {"true" if commit else "false"}\npush = false\n\n'
+                           '[bumpver.file_patterns]\n"a.txt" = ["ver={version};"]\n')
+                    tree = {"bumpver.toml": cfg.encode(), "a.txt": b"x\nver=v1.2.9;\ny\n"}
+                    seps = {"bumpver.toml": "\n", "a.txt": "\n"}
+                    case = {"tag_case": True, "scope": scope, "tags": tags, "on_this_branch": merged, "commit_and_tag": commit, "flags": [bump]}
+
+                    def vcs():
+                        os.mkdir(".git")
+                        return fakevcs.install(fakevcs.FakeVCS("git", tags_all=tags, tags_merged=merged, status=[], remote=None))
+
+                    dry_then_real(st, tree, seps, [bump], case, f"existing-tags:{scope}" + (":committing" if commit else ""), base_flags=("--no-fetch",), vcs=vcs)
 
 
 def dry_then_real(st, tree, seps, flags, case, label, base_flags=("--no-fetch", "--ignore-vcs-tag"), vcs=None):
@@ -309,6 +346,9 @@ def replay(case, st):
         for tier in ("quick", "thorough"):
             if case.get("fetch_case"):
                 fetch_cases(st)
+                return
+            if case.get("tag_case"):
+                tag_cases(st, case["scope"])
                 return
             if "legacy" in case:
                 for i, lc in enumerate(c04.legacy_cases()):
